@@ -6,11 +6,15 @@
    the non-daemon members in the order in which they finished; `completed` is the first consumed
    member that counts (under the object policy: that did not return None); what a finished
    member was is never rewritten and the policy never changes.
+   the semaphore of next_done counts the queue of finished members (so next_done returns None only
+   when nothing is pending and nothing is queued); join leaves its loop - other than by a
+   cancellation - only under the none policy, or after a member that stops it (failed / cancelled;
+   policy any; policy object and a member counts), or when nothing is pending and nothing is queued;
+   and it never goes on consuming after a member that stops it.
    NOT proved (tied to the code by the per-handle correspondence and checked on the real runs by
-   the harness oracle only): that the loop leaves exactly when the policy says so; next_done
-   called by the application between the iterations of join; the result / exception /
-   results / exceptions properties (they read Task objects). *)
-From AV Require Import Base Gen_curio TaskGroup TaskGroupProofs TaskGroupOrder.
+   the harness oracle only): next_done called by the application between the iterations of join;
+   the result / exception / results / exceptions properties (they read Task objects). *)
+From AV Require Import Base Gen_curio TaskGroup TaskGroupProofs TaskGroupOrder TaskGroupPolicy.
 
 (* every non-daemon member is yielded exactly once, in completion order *)
 Theorem C10_completion_order_exactly_once : forall p m ls, forallb fresh_label ls = true ->
@@ -35,6 +39,41 @@ Theorem C10_only_join_consumes : forall g l, joiner_runs g l = false ->
   completed (step g l) = completed g /\ consumed (step g l) = consumed g.
 Proof. intros g l. destruct (step_frame g l) as (_ & _ & H). exact H. Qed.
 
+(* the semaphore counts the queue of finished members (next_done's acquire never blocks on a
+   non-empty queue and never succeeds on an empty one) *)
+Theorem C10_semaphore_counts_done : forall p m ls,
+  let g := run p m ls in semv g + b2n (granted g) = length (doneq g).
+Proof. intros p m ls. apply (reachable_sem p m ls). Qed.
+
+(* the wait policy, the "waits" side: in the step of the joining task in which the loop is left
+   without a cancellation, a reason holds *)
+Theorem C10_loop_left_only_by_policy : forall p m ls h order rest, forallb fresh_label ls = true ->
+  let g := run p m ls in
+  queue g = HJoiner :: rest -> must_cancel g = false -> wake g <> Some true ->
+  (pc g = JNot \/ pc g = JCancelRem \/ pc g = JNextDone) ->
+  let g' := step g (LRun h order) in
+  pc g' = JNextDone \/ pc g' = JCancelRem \/ Reason g'.
+Proof. exact reachable_loop_left_by_policy. Qed.
+
+(* ... and the "stops early" side: no member but the last one consumed stops the loop, and while the
+   loop is still going neither does the last one *)
+Theorem C10_never_past_a_stop : forall p m ls, forallb fresh_label ls = true ->
+  let g := run p m ls in
+  (forall pre t post, consumed g = pre ++ t :: post -> post <> [] -> stop_at g pre t = false) /\
+  (pc g = JNextDone -> forall pre t, consumed g = pre ++ [t] -> stop_at g pre t = false) /\
+  ((pc g = JNot \/ pc g = JCancelRem) -> consumed g = []).
+Proof. intros p m ls H. destruct (reachable_post p m ls H) as (_ & _ & Hp). exact Hp. Qed.
+
+(* non-vacuity: all policy - a value, then a failure: the loop goes on after the first, stops after the second *)
+Example C10_ex_all_stops_on_failure :
+  let ls := [LSpawn 1 false None; LSpawn 2 false None; LSpawn 3 false None; LStart; LRun HJoiner [];
+             LFinish 1 RetVal; LRun (HCb (OnDone 1)) []; LRun HJoiner []; LFinish 2 Exc; LRun (HCb (OnDone 2)) []]%N in
+  let g := run PAll MJoin ls in
+  queue g = [HJoiner] /\ pc g = JNextDone /\ consumed g = [1]%N /\ stop_at g [] 1%N = false /\
+  let g' := step g (LRun HJoiner [3]%N) in
+  pc g' = JCancelAll /\ consumed g' = [1; 2]%N /\ stop_after g' 2%N = true /\ status g' 3%N = Some RunC.
+Proof. vm_compute. repeat split. Qed.
+
 (* non-vacuity: object policy - None, then a value: the second member is reported, the third is cancelled *)
 Example C10_ex_object :
   let g := run PObject MJoin
@@ -47,5 +86,8 @@ Proof. vm_compute. repeat split. Qed.
 
 Print Assumptions C10_completion_order_exactly_once.
 Print Assumptions C10_completed_is_first.
+Print Assumptions C10_semaphore_counts_done.
+Print Assumptions C10_loop_left_only_by_policy.
+Print Assumptions C10_never_past_a_stop.
 Print Assumptions C10_outcomes_stable.
 Print Assumptions C10_only_join_consumes.
